@@ -94,13 +94,28 @@ def generate(rng, tier, seed):
             if scn[5][1] == "pct":
                 scn[5] = ["sched", "pct", 3, base, 12 if thorough else 5]
             cases.append({"scn": scn, "name": nm + ("+unsub" if cause else ""), "period": period, "users": 1})
+        # an unsubscribe due at the very instant an item arrives (timeout re-arms its deadline while the subscription ends)
+        for nm, pipe, period, emit, cause in hot_catalogue(rng)[:2]:
+            arrivals, t = [], 0
+            for a in emit:
+                if a[0] == "sleep":
+                    t += a[1]
+                elif a[0] == "next":
+                    arrivals.append(t)
+            if not arrivals:
+                continue
+            base = seed * 1000 + rng.randrange(1000)
+            threads = [["e"] + emit, ["u", ["sleep", rng.choice(arrivals)], ["unsub", 0]]]
+            scn = ["conc", ["objects", ["subject", "subject"], ["pipe", pipe]], ["init", ["sub", 0, 0]], ["threads"] + threads, ["fini"],
+                   ["sched", "pct", 5, base, 1200 if thorough else 400]]      # the window is a few lock operations wide: ~2% of PCT-5 schedules land in it
+            cases.append({"scn": scn, "name": nm + "+unsub@item", "period": period, "users": 1})
     return cases
 
 
 def sched_of(case, ob):
     s = [f for f in case["scn"] if isinstance(f, list) and f and f[0] == "sched"][0]
     if s[1] == "pct":
-        return ["pct", s[2], ob["seed"], 1]
+        return ["pct", int(s[2]), ob["seed"], 1]
     return ["random", ob["seed"], 1]
 
 
